@@ -131,11 +131,29 @@ pub fn oracle(case: &[u8], obs: &mut Obs) -> Result<(), String> {
     let big_pad = c.chance(40);
     o.rich.max_gap = if big_pad { 1 << 20 } else { 64 };
     let inp = inputs::gen_input(&mut c, &o);
-    let data = &inp.data;
+    let names: Vec<Vec<u8>> = inp.rich.as_ref().map(|r| r.dyn_names.clone()).unwrap_or_default();
+    check(&inp.data, inp.mode, &inp.note, big_pad, &names, &mut c, obs)
+}
+
+/// raw mode: [n][n bytes driving reader behaviour and the op sequence][the ELF file]
+pub fn oracle_raw(case: &[u8], obs: &mut Obs) -> Result<(), String> {
+    let (args, data) = crate::c01::split_raw(case);
+    let mut c = Choice::new(args);
+    check(data, "raw_file", "", false, &[b"memset".to_vec()], &mut c, obs)
+}
+
+fn check(data_in: &[u8], mode: &'static str, note: &str, big_pad: bool, names: &[Vec<u8>], c: &mut Choice, obs: &mut Obs) -> Result<(), String> {
+    let data = &data_in.to_vec();
+    let mut c = c.clone();
+    struct Inp<'a> {
+        mode: &'static str,
+        note: &'a str,
+    }
+    let inp = Inp { mode, note };
+    let names: Vec<Vec<u8>> = names.to_vec();
     let len = data.len() as u64;
     let limit = 8 * data.len() + 4096;
     let (chunks, intr) = stream::gen_reader_behaviour(&mut c, 64);
-    let names: Vec<Vec<u8>> = inp.rich.as_ref().map(|r| r.dyn_names.clone()).unwrap_or_default();
     let ctx = format!("{}-byte {} input ({})", data.len(), inp.mode, inp.note);
     // does the file claim a size above the allocation bound?
     let claims_big = refs::read_ehdr(data)
@@ -221,7 +239,7 @@ pub fn property() -> Property {
         level: "exploration",
         rule: "cases are stream contents (rich generated files where 78% carry 1..3 header-field overrides from the boundary table {0,1,..,2^31,2^32-1,2^63,2^64-1,len-1,len,len+1,...} so that small files claim huge sizes/counts/offsets, 16% laid out with up to 1 MiB of padding between small tables; mutated linker-produced samples; raw bytes) x an operation sequence of 0..24 stream calls (as C07, incl. fabricated headers with boundary ranges) x chunking/interrupting readers. Monitors: (1) no panic; (2) a counting global allocator with a per-thread window around open_stream and around every call: every single allocation request <= 8*stream_len + 4096 bytes (requests above 1 GiB park the thread and fail the case); (3) an instrumented Read+Seek logs every byte range delivered: during open_stream the union must lie inside {ident, header tail, shdr[0] when extended numbering needs it, the two header tables}, computed from the bytes by an independent reader; during each later call inside the ranges that call designates according to the headers (section range, linked string table, version sections, segment range); re-reading a designated range is allowed. Non-trivial: the file claims a size above the bound, or has >64 KiB of padding and at least one call was monitored; distinct by (file, ops) hash.",
         assumptions: &["the legitimate maximum allocation derived from the code is about 3.5 x stream length (a Vec<ProgramHeader> grown by doubling for an ELF32 table); 8x + 4 KiB leaves margin", "the allocator window also counts the harness's own small allocations made while digesting results"],
-        subs: vec![Sub::new("bounded", oracle, 3000, 300_000, 10_000_000).shrink(1500)],
-        extra: None,
+        subs: vec![Sub::new("bounded", oracle, 3000, 300_000, 10_000_000).shrink(1500), Sub::new("bounded_raw", oracle_raw, 600, 20_000, 200_000).shrink(1500)],
+        extras: vec![crate::fuzz::c08_campaign],
     }
 }
